@@ -189,7 +189,7 @@ fn gen_bounds(r: &mut Rng) -> Vec<i64> {
 
 fn pick_name(r: &mut Rng, fl: Flavour) -> String {
     match fl {
-        Flavour::Strings => wild_string(r, true),
+        Flavour::Strings => crate::c08::hostile_string(r, true),
         _ => {
             let base = ["lat", "reqs", "http_requests", "mem", "q.depth", "io-wait", "a", "svc:rate"];
             let mut s = r.pick_str(&base).to_string();
@@ -202,13 +202,13 @@ fn pick_name(r: &mut Rng, fl: Flavour) -> String {
 }
 fn pick_lname(r: &mut Rng, fl: Flavour) -> String {
     match fl {
-        Flavour::Strings => wild_string(r, true),
+        Flavour::Strings => crate::c08::hostile_string(r, true),
         _ => r.pick_str(&["host", "code", "path", "zone", "k-1", "9x"]).to_string(),
     }
 }
 fn pick_lval(r: &mut Rng, fl: Flavour) -> String {
     match fl {
-        Flavour::Strings => wild_string(r, false),
+        Flavour::Strings => crate::c08::hostile_string(r, false),
         _ => r.pick_str(&["a", "b", "200", "", "/x y", "eu"]).to_string(),
     }
 }
@@ -401,7 +401,7 @@ pub fn session(r: &mut Rng, out: &mut Out, fl: Flavour) {
                 let (raw, san) = names[r.below(names.len())].clone();
                 let unit = if r.chance(2, 3) { Some(*r.pick(&UNITS)) } else { None };
                 let desc = match fl {
-                    Flavour::Strings => wild_string(r, false),
+                    Flavour::Strings => crate::c08::hostile_string(r, false),
                     _ => r.pick_str(&["first", "second help", "", "x\\y"]).to_string(),
                 };
                 let kn = metrics::KeyName::from(raw.clone());
